@@ -47,4 +47,50 @@ def checkEntry (P : CProg) : Bool := (liveInAt P 0).all (fun p => !idIsVirtual p
 def checkAllocShape (A : List (Nat × Nat)) : Bool :=
   A.all (fun p => idIsVirtual p.1 && !idIsVirtual p.2 && idKind p.1 == idKind p.2)
 
+/-! ### `accept-regs`: the registers an instruction mentions -/
+
+/-- What `accept-regs` carries for one instruction. `own` is the harness's own traversal of the operand values
+(register operands; base and index of memory operands — `false` marks an address register); `impl` is what
+`Instruction.Registers()` answered and `uses` what `InputRegisters()` answered. -/
+structure RInstr where
+  own : List (R × Bool)
+  impl : List R
+  uses : List R
+  deriving Repr, Inhabited
+
+def hasReg (l : List R) (r : R) : Bool := l.any (fun x => x.id == r.id && x.mask == r.mask)
+
+/-- every lane of `r` is in `s` -/
+def coversReg (s : MS) (r : R) : Bool := get s r.id &&& r.mask == r.mask
+
+/-- The allocator and the verifier see exactly the registers of the operands (as a set: order and repetitions are
+not pinned by the property), and every address register of a memory operand is declared as read. -/
+def checkRegsAt (c : RInstr) : Bool :=
+  let own := c.own.map (·.1)
+  own.all (hasReg c.impl) && c.impl.all (hasReg own) &&
+  c.own.all (fun p => p.2 || coversReg (ofRegs c.uses) p.1)
+
+/-! ### `accept-bind`: one (original register, register found in its place after BindRegisters) pair -/
+
+/-- `none` = accepted; `some reason` otherwise. -/
+def checkBindOne (tbl : List RegRow) (al : List (Nat × Nat)) (o b : R) : Option String :=
+  if idIsVirtual b.id then some s!"virtual-remains {b.id}"
+  else if !idIsVirtual o.id then (if o.id == b.id && o.mask == b.mask then none else some s!"physical-changed {o.id}")
+  else match al.find? (·.1 == o.id) with
+    | none => some s!"unallocated {o.id}"
+    | some (_, p) =>
+      if b.id != p then some s!"inconsistent {o.id}"
+      else if b.mask != o.mask then some s!"width-changed {o.id}"
+      else if idKind p != idKind o.id then some s!"class-changed {o.id}"
+      else match lookupID tbl p o.mask with
+        | none => some s!"no-such-view {o.id}"
+        | some row =>
+          if row.id != p then some s!"not-a-register-of-the-file {o.id}"
+          else if row.info &&& infoRestricted != 0 then some s!"restricted {o.id}"
+          else if o.mask == S8H && idIndex p ≥ 4 then some s!"high-byte-on-bad-register {o.id}"
+          else none
+
+def checkBind (tbl : List RegRow) (al : List (Nat × Nat)) (pairs : List (R × R)) : Option String :=
+  pairs.findSome? (fun p => checkBindOne tbl al p.1 p.2)
+
 end Avo.AllocCheck
